@@ -726,7 +726,13 @@ pub fn c15_tasks(seed: u64, th: bool) -> Vec<Task> {
             for len in [0usize, 1, n - 1, n, n + 1, n + 2, 64, 3072] {
                 t.push(Task::SignMut { hid, params: params.clone(), seed: sd.clone(), counter: 3, msg: mk(len, None), reject: false, aux: false });
             }
-            // non-zero trailer at each of the n positions
+            // message lengths around 2^16 (a length or offset narrowed to 16 bits coincides with a short message)
+            if w == 4 || th {
+                for len in [65535usize, 65536, 65536 + n - 1, 65536 + n, 66036, 131072 + n + 5] {
+                    t.push(Task::SignMut { hid, params: params.clone(), seed: sd.clone(), counter: 3, msg: mk(len, None), reject: false, aux: false });
+                }
+                t.push(Task::SignMut { hid, params: params.clone(), seed: sd.clone(), counter: 3, msg: mk(65536 + n + 8, Some(n - 1)), reject: false, aux: false });
+            }
             for i in 0..n {
                 if th || w == 4 || i == 0 || i == n - 1 {
                     t.push(Task::SignMut { hid, params: params.clone(), seed: sd.clone(), counter: 3, msg: mk(n + 8, Some(i)), reject: false, aux: false });
